@@ -1357,11 +1357,11 @@ theorem history_caps_entitled (cfg : Cfg) (hcfg : HashSafe cfg) (hist : List Ev)
 
 /-- a line-safe stand-in for the salted hash (only used by the examples below) -/
 def hexHash (p : Str) : Str := 'h' :: p.filter (fun c => !C16.isBreak c)
-def cfg0 : Cfg := { hash := hexHash, lower := asciiLower }
+def pcfg0 : Cfg := { hash := hexHash, lower := asciiLower }
 
-theorem cfg0_hashSafe : HashSafe cfg0 := by
+theorem cfg0_hashSafe : HashSafe pcfg0 := by
   intro p c hc
-  simp only [cfg0, hexHash, List.mem_cons, List.mem_filter, Bool.not_eq_true'] at hc
+  simp only [pcfg0, hexHash, List.mem_cons, List.mem_filter, Bool.not_eq_true'] at hc
   rcases hc with rfl | ⟨_, hx⟩
   · decide
   · exact hx
@@ -1385,12 +1385,12 @@ theorem st0_inv : Inv st0 := by
     exact ⟨by decide, by decide, by decide, by decide, by decide, by decide⟩
 
 /-- an admin may hand out what they hold (an instance of the `Granted` clause) … -/
-example : (step cfg0 st0 (s "adm!a@admin.host") (.capAdd (s "eve") (s "Admin")) none).1.users.map (fun p => (p.1, p.2.caps)) =
+example : (step pcfg0 st0 (s "adm!a@admin.host") (.capAdd (s "eve") (s "Admin")) none).1.users.map (fun p => (p.1, p.2.caps)) =
     [(1, [s "owner"]), (2, [s "admin"]), (3, [s "admin"])] := by decide
 
 /-- … but neither `owner` in any spelling, nor (since the `isCapability` repair) `owner` with blanks
 around it — `admin capability add eve " owner"` used to store a string that reloads as `owner` -/
-example : (run cfg0 st0 [(s "adm!a@admin.host", .capAdd (s "eve") (s "OWNER")),
+example : (run pcfg0 st0 [(s "adm!a@admin.host", .capAdd (s "eve") (s "OWNER")),
                          (s "adm!a@admin.host", .capAdd (s "eve") (s " owner")),
                          (s "adm!a@admin.host", .capAdd (s "eve") (s "owner\n")),
                          (s "x", .flushReload)]).users.map (fun p => (p.1, p.2.caps)) =
@@ -1398,7 +1398,7 @@ example : (run cfg0 st0 [(s "adm!a@admin.host", .capAdd (s "eve") (s "OWNER")),
 
 /-- the other repaired defect: a name carrying a line break is refused by `register` (it used to be
 written to users.conf and read back as a capability line) -/
-example : (run cfg0 st0 [(s "mal!m@mal.host", .register (s "x\n  capability owner") (s "pw")),
+example : (run pcfg0 st0 [(s "mal!m@mal.host", .register (s "x\n  capability owner") (s "pw")),
                          (s "x", .flushReload)]).users.map (fun p => p.1) = [1, 2, 3] := by decide
 
 /-- the state `st0` once saved: the three invariants hold -/
@@ -1408,7 +1408,7 @@ theorem st0_inv3 : Inv3 (flushU st0) := by
 
 /-- a revocation followed by SIGHUP: acknowledged, hence saved, hence it stays revoked
 (this is the history the seeded change C02-m4 breaks on the real code) -/
-example : (run cfg0 (flushU st0) [(s "adm!a@admin.host", .capAdd (s "eve") (s "foo")),
+example : (run pcfg0 (flushU st0) [(s "adm!a@admin.host", .capAdd (s "eve") (s "foo")),
                                   (s "adm!a@admin.host", .capRemove (s "eve") (s "foo")),
                                   (s "x", .reload)]).users.map (fun p => (p.1, p.2.caps)) =
     [(1, [s "owner"]), (2, [s "admin"]), (3, [])] := by decide
@@ -1422,18 +1422,18 @@ example :
     let st : St := flushU { st0 with
       users := st0.users.map (fun p => if p.1 = 3 then (3, { p.2 with caps := [s "foo"] }) else p),
       auth := [(2, [s "eve!e@evil.host"])] }
-    (step cfg0 st (s "adm!a@admin.host") (.capRemove (s "eve") (s "foo")) none).2 = false ∧
-    ((run cfg0 st [(s "adm!a@admin.host", .capRemove (s "eve") (s "foo"))]).users.map (fun p => (p.1, p.2.caps)) =
+    (step pcfg0 st (s "adm!a@admin.host") (.capRemove (s "eve") (s "foo")) none).2 = false ∧
+    ((run pcfg0 st [(s "adm!a@admin.host", .capRemove (s "eve") (s "foo"))]).users.map (fun p => (p.1, p.2.caps)) =
       [(1, [s "owner"]), (2, [s "admin"]), (3, [])]) ∧
-    ((run cfg0 st [(s "adm!a@admin.host", .capRemove (s "eve") (s "foo")), (s "x", .reload)]).users.map
+    ((run pcfg0 st [(s "adm!a@admin.host", .capRemove (s "eve") (s "foo")), (s "x", .reload)]).users.map
         (fun p => (p.1, p.2.caps)) = [(1, [s "owner"]), (2, [s "admin"]), (3, [s "foo"])]) := by decide
 
 /-- `history_owner_safe` at the example state: whatever history follows, `root` (id 1) stays the
 only owner -/
 example (hist : List (Str × Cmd)) (hp : ∀ e ∈ hist, C16.noBreak e.1) :
-    ∀ id ∈ owners (run cfg0 (flushU st0) hist), id = 1 := by
+    ∀ id ∈ owners (run pcfg0 (flushU st0) hist), id = 1 := by
   intro id hid
-  have := history_owner_safe cfg0 cfg0_hashSafe hist (flushU st0) st0_inv3.inv (Or.inl rfl) hp id hid
+  have := history_owner_safe pcfg0 cfg0_hashSafe hist (flushU st0) st0_inv3.inv (Or.inl rfl) hp id hid
   have e : owners (flushU st0) = [1] := by decide
   rw [e] at this
   simpa using this
@@ -1444,15 +1444,15 @@ is `foo`), everything is saved; read back in the order `--foo, -foo` both surviv
 example :
     let hist : List Ev := [.cmd (s "adm!a@admin.host") (.capAdd (s "eve") (s "--foo")),
                            .cmd (s "adm!a@admin.host") (.capAdd (s "eve") (s "-foo"))]
-    ((runEv cfg0 (flushU st0) (hist ++ [.cmd (s "x") .reload])).users.map (fun p => (p.1, p.2.caps)) =
+    ((runEv pcfg0 (flushU st0) (hist ++ [.cmd (s "x") .reload])).users.map (fun p => (p.1, p.2.caps)) =
       [(1, [s "owner"]), (2, [s "admin"]), (3, [s "--foo", s "-foo"])]) ∧
-    ((runEv cfg0 (flushU st0) (hist ++ [.order [(3, [s "-foo", s "--foo"])] [], .cmd (s "x") .reload])).users.map
+    ((runEv pcfg0 (flushU st0) (hist ++ [.order [(3, [s "-foo", s "--foo"])] [], .cmd (s "x") .reload])).users.map
         (fun p => (p.1, p.2.caps)) = [(1, [s "owner"]), (2, [s "admin"]), (3, [s "--foo"])]) ∧
     -- an order that is not a permutation of the saved set is ignored (and reported by `fileOrderOk`)
-    ((runEv cfg0 (flushU st0) hist).fileOrderOk [(3, [s "-foo", s "owner"])] [] = false) := by decide
+    ((runEv pcfg0 (flushU st0) hist).fileOrderOk [(3, [s "-foo", s "owner"])] [] = false) := by decide
 
 /-- `Entitled` is satisfiable: the admin `adm` may hand `admin` (which they hold) to `eve` … -/
-example : Entitled cfg0 st0 (s "adm!a@admin.host") (.capAdd (s "eve") (s "Admin")) none 3 (s "admin") :=
+example : Entitled pcfg0 st0 (s "adm!a@admin.host") (.capAdd (s "eve") (s "Admin")) none 3 (s "admin") :=
   ⟨Or.inl ⟨s "eve", s "Admin", rfl, by decide, by decide, by decide, Or.inr (by decide)⟩, by decide, by decide⟩
 
 /-- … while the same request from `eve` herself (to whom the default `-admin` applies) does not
@@ -1462,10 +1462,10 @@ example : allowed st0 (s "eve!e@evil.host") (.capAdd (s "eve") (s "Admin")) none
           allowed st0 (s "adm!a@admin.host") (.capAdd (s "eve") (s "Admin")) (some (s "#chan")) = true := by decide
 
 /-- `history_chanAgree_ev` at the example state, and its hypothesis is satisfiable -/
-example (hist : List Ev) (hl : ChanLoadsOkEv cfg0 (flushC st0) hist) : ChanAgree (runEv cfg0 (flushC st0) hist) :=
-  history_chanAgree_ev cfg0 hist _ (chanAgree_of_saved rfl) hl
+example (hist : List Ev) (hl : ChanLoadsOkEv pcfg0 (flushC st0) hist) : ChanAgree (runEv pcfg0 (flushC st0) hist) :=
+  history_chanAgree_ev pcfg0 hist _ (chanAgree_of_saved rfl) hl
 
-example : ChanLoadsOkEv cfg0 (flushC st0) [.cmd (s "x") .reload, .cmd (s "x") .flushReload] := by
+example : ChanLoadsOkEv pcfg0 (flushC st0) [.cmd (s "x") .reload, .cmd (s "x") .flushReload] := by
   refine ⟨?_, ?_, trivial⟩
   · intro t ht
     have : t = [] := by
@@ -1489,13 +1489,13 @@ theorem uadd_keeps_antiOwner_out {caps caps' : List Str} {c : Str} (h : C03.uadd
     simp only [← h1, beq_self_eq_true, if_true] at h
     cases h
 
-example : (step cfg0 st0 (s "adm!a@admin.host") (.capAdd (s "eve") (s "-OWNER")) none).2 = false ∧
-          (step cfg0 st0 (s "adm!a@admin.host") (.capAdd (s "eve") (s "-OWNER")) none).1.users = st0.users := by decide
+example : (step pcfg0 st0 (s "adm!a@admin.host") (.capAdd (s "eve") (s "-OWNER")) none).2 = false ∧
+          (step pcfg0 st0 (s "adm!a@admin.host") (.capAdd (s "eve") (s "-OWNER")) none).1.users = st0.users := by decide
 /-- a refused `hostmask add` leaves nothing behind: `eve` takes `ann*!*@*`; the admin's account then
 asks for `*bea!*@*`, which has hostmasks in common with it without matching it as a string —
 `setUser` refuses (hostmaskPatternsIntersect) and the account keeps exactly the hostmasks it had -/
 example :
-    let st1 := (step cfg0 st0 (s "eve!e@evil.host") (.hostmaskAdd (s "eve") (s "ann*!*@*") (s "p")) none)
-    let st2 := (step cfg0 st1.1 (s "adm!a@admin.host") (.hostmaskAdd (s " bob\tx") (s "*bea!*@*") (s "p")) none)
+    let st1 := (step pcfg0 st0 (s "eve!e@evil.host") (.hostmaskAdd (s "eve") (s "ann*!*@*") (s "p")) none)
+    let st2 := (step pcfg0 st1.1 (s "adm!a@admin.host") (.hostmaskAdd (s " bob\tx") (s "*bea!*@*") (s "p")) none)
     st1.2 = true ∧ st2.2 = false ∧ st2.1.users = st1.1.users := by decide
 end C02
